@@ -135,6 +135,50 @@ func init() {
 		id := Var(ec.e().fresher.name("fmt.Errorf"), SInt)
 		ec.st.Assume(Not(Eq(id, Int(0))))
 		ec.noteFailure(True)
+		// %w: the new error wraps the error argument at that position (errors.Is / errors.As see through it)
+		if len(call.Args) > 0 && len(args) > 0 {
+			if f, ok := args[0].(*Term); ok && f.IsStr() {
+				rest := args[1:]
+				if len(rest) == 1 {
+					if sl, ok := rest[0].(*SliceV); ok && sl.Len.IsInt() {
+						var un []Value
+						for i := int64(0); i < sl.Len.Int.Int64(); i++ {
+							un = append(un, sl.At(Int(i)))
+						}
+						rest = un
+					}
+				}
+				k := 0
+				fs := f.Str
+				for i := 0; i+1 < len(fs); i++ {
+					if fs[i] != '%' {
+						continue
+					}
+					if fs[i+1] == '%' {
+						i++
+						continue
+					}
+					j := i + 1
+					for j < len(fs) && strings.ContainsRune("+-# 0123456789.[]*", rune(fs[j])) {
+						j++
+					}
+					if j < len(fs) && fs[j] == 'w' && k < len(rest) {
+						var cause *Term
+						switch x := rest[k].(type) {
+						case *Term:
+							cause = x
+						case *IfaceV:
+							cause = x.Id
+						}
+						if cause != nil && cause.Sort == SInt {
+							ec.st.Assume(App("err.wraps", SBool, id, cause))
+						}
+					}
+					k++
+					i = j
+				}
+			}
+		}
 		return id
 	}
 	for _, n := range []string{"Debug", "Info", "Warn", "Error"} {
